@@ -59,10 +59,13 @@ type PtrV struct {
 // SeqTree holds the contents of an array as SMT arrays, one per scalar leaf
 // of the element type ("struct of arrays").
 type SeqTree struct {
-	Arr    Term      // leaf
+	Arr    Term      // leaf (for a slice-typed element: array of backing-array references)
+	Len    Term      // slice-typed element: array of lengths ("" otherwise)
 	Fields []SeqTree // struct element
 	Typ    types.Type
 }
+
+func (tr SeqTree) isSliceLeaf() bool { return tr.Len.S != "" }
 
 // SeqV is the content of an array object (backing store of slices, or a Go
 // array value).
@@ -300,6 +303,16 @@ func (p *PkgCtx) seqTreeOf(c *VCtx, t types.Type, hint string, zero bool) SeqTre
 		}
 		return tr
 	}
+	if sl, ok := t.Underlying().(*types.Slice); ok && p.nestable(sl.Elem(), 0) {
+		// element that is itself a slice: (reference to its backing array, length) per element;
+		// the contents of a backing array are a function of its reference (heapTree)
+		if zero {
+			return SeqTree{Arr: zeroOf(arrSort(SRef)), Len: Term{"((as const (Array Int Int)) 0)", arrSort(SInt)}, Typ: t}
+		}
+		ln := c.fresh(hint+".len", arrSort(SInt))
+		c.decls = append(c.decls, fmt.Sprintf("(assert (forall ((k Int)) (! (and (<= 0 (select %s k)) (<= (select %s k) %s)) :pattern ((select %s k)))))", ln.S, ln.S, pow2(maxLenBits).String(), ln.S))
+		return SeqTree{Arr: c.fresh(hint+".ref", arrSort(SRef)), Len: ln, Typ: t}
+	}
 	s := p.scalarSort(t)
 	if s == "" {
 		s = SRef
@@ -314,6 +327,105 @@ func (p *PkgCtx) seqTreeOf(c *VCtx, t types.Type, hint string, zero bool) SeqTre
 			bigLit(ii.min()).S, arr.S, arr.S, bigLit(ii.max()).S, arr.S))
 	}
 	return SeqTree{Arr: arr, Typ: t}
+}
+
+// nestable: element types of nested slices that the heap-function representation covers
+func (p *PkgCtx) nestable(t types.Type, depth int) bool {
+	if depth > 4 {
+		return false
+	}
+	switch u := t.Underlying().(type) {
+	case *types.Struct:
+		for i := 0; i < u.NumFields(); i++ {
+			if !p.nestable(u.Field(i).Type(), depth+1) {
+				return false
+			}
+		}
+		return true
+	case *types.Slice:
+		return p.nestable(u.Elem(), depth+1)
+	case *types.Array:
+		return false
+	}
+	return true // scalars, and everything stored as an opaque reference
+}
+
+func typeKey(t types.Type) string {
+	s := types.TypeString(t, func(p *types.Package) string { return p.Name() })
+	var b strings.Builder
+	for _, r := range s {
+		if r >= 'a' && r <= 'z' || r >= 'A' && r <= 'Z' || r >= '0' && r <= '9' {
+			b.WriteRune(r)
+		} else {
+			b.WriteRune('_')
+		}
+	}
+	return b.String()
+}
+
+// heapTree: the contents of the backing array with reference ref, as applications of
+// per-type heap functions (declared on demand).
+func (p *PkgCtx) heapTree(c *VCtx, t types.Type, ref Term, name string) SeqTree {
+	if st, ok := t.Underlying().(*types.Struct); ok {
+		tr := SeqTree{Typ: t}
+		for i := 0; i < st.NumFields(); i++ {
+			tr.Fields = append(tr.Fields, p.heapTree(c, st.Field(i).Type(), ref, name+"_"+st.Field(i).Name()))
+		}
+		return tr
+	}
+	if sl, ok := t.Underlying().(*types.Slice); ok && p.nestable(sl.Elem(), 0) {
+		fr, fl := "hp_"+name+"_ref", "hp_"+name+"_len"
+		c.declareHeap(fr, arrSort(SRef), "")
+		c.declareHeap(fl, arrSort(SInt), fmt.Sprintf("(assert (forall ((r Ref) (k Int)) (! (and (<= 0 (select (%s r) k)) (<= (select (%s r) k) %s)) :pattern ((select (%s r) k)))))", fl, fl, pow2(maxLenBits).String(), fl))
+		return SeqTree{Arr: app(arrSort(SRef), fr, ref), Len: app(arrSort(SInt), fl, ref), Typ: t}
+	}
+	s := p.scalarSort(t)
+	if s == "" {
+		s = SRef
+	}
+	fn := "hp_" + name
+	ax := ""
+	if ii, ok := p.intInfo(t); ok && !ii.bv {
+		ax = fmt.Sprintf("(assert (forall ((r Ref) (k Int)) (! (and (<= %s (select (%s r) k)) (<= (select (%s r) k) %s)) :pattern ((select (%s r) k)))))", bigLit(ii.min()).S, fn, fn, bigLit(ii.max()).S, fn)
+	}
+	c.declareHeap(fn, arrSort(s), ax)
+	return SeqTree{Arr: app(arrSort(s), fn, ref), Typ: t}
+}
+
+func (c *VCtx) declareHeap(name, sort, axiom string) {
+	if c.ufs == nil {
+		c.ufs = map[string]bool{}
+	}
+	if c.ufs[name] {
+		return
+	}
+	c.ufs[name] = true
+	c.decls = append(c.decls, fmt.Sprintf("(declare-fun %s (Ref) %s)", name, sort))
+	if axiom != "" {
+		c.decls = append(c.decls, axiom)
+	}
+}
+
+// matSlice: the slice stored in a container element: same reference => same backing array object.
+func (s *State) matSlice(ref, ln Term, t types.Type) Val {
+	if s.matObjs == nil {
+		s.matObjs = map[string]ObjID{}
+	}
+	id, ok := s.matObjs[ref.S]
+	if !ok {
+		id = s.c.newObj()
+		et := t.Underlying().(*types.Slice).Elem()
+		s.objs[id] = SeqV{Tree: s.c.pkg.heapTree(s.c, et, ref, typeKey(et)), Typ: et}
+		s.matObjs[ref.S] = id
+		if s.objRef == nil {
+			s.objRef = map[ObjID]Term{}
+		}
+		s.objRef[id] = ref
+	} else if _, have := s.objs[id]; !have {
+		et := t.Underlying().(*types.Slice).Elem()
+		s.objs[id] = SeqV{Tree: s.c.pkg.heapTree(s.c, et, ref, typeKey(et)), Typ: et}
+	}
+	return SliceV{Arr: id, Off: intLit(0), Len: ln, Cap: ln, Nil: tEq(ref, Term{"ref_nil", SRef}), Typ: t}
 }
 
 func (p *PkgCtx) isOpaqueElem(t types.Type) bool {
@@ -337,6 +449,9 @@ type callLog struct {
 }
 
 type State struct {
+	keep    []Term // facts that survive a modular loop cut
+	matObjs map[string]ObjID // reference term -> backing array object of a nested slice
+	objRef  map[ObjID]Term
 	logs map[string]callLog
 	c    *VCtx
 	symObjs map[string]ObjID // lazily materialised pointees of unknown pointers
@@ -362,7 +477,16 @@ func (s *State) clone() *State {
 	for k, v := range s.logs {
 		n.logs[k] = v
 	}
+	n.matObjs = make(map[string]ObjID, len(s.matObjs))
+	for k, v := range s.matObjs {
+		n.matObjs[k] = v
+	}
+	n.objRef = make(map[ObjID]Term, len(s.objRef))
+	for k, v := range s.objRef {
+		n.objRef[k] = v
+	}
 	n.pc = append([]Term(nil), s.pc...)
+	n.keep = append([]Term(nil), s.keep...)
 	return n
 }
 
@@ -379,6 +503,14 @@ func (s *State) snapshot() *State {
 	for k, v := range s.logs {
 		n.logs[k] = v
 	}
+	n.matObjs = make(map[string]ObjID, len(s.matObjs))
+	for k, v := range s.matObjs {
+		n.matObjs[k] = v
+	}
+	n.objRef = make(map[ObjID]Term, len(s.objRef))
+	for k, v := range s.objRef {
+		n.objRef[k] = v
+	}
 	return n
 }
 
@@ -387,6 +519,16 @@ func (s *State) assume(t Term) {
 		return
 	}
 	s.pc = append(s.pc, t)
+}
+
+// assumeGlobal: a fact that holds in every state (type ranges of fresh symbols, preconditions
+// about entry values); it survives a modular loop cut.
+func (s *State) assumeGlobal(t Term) {
+	if t.S == "true" {
+		return
+	}
+	s.pc = append(s.pc, t)
+	s.keep = append(s.keep, t)
 }
 
 // ---------------------------------------------------------------------------
@@ -403,7 +545,7 @@ func (s *State) freshScalar(t types.Type, hint string) Scalar {
 	}
 	v := s.c.fresh(hint, sort)
 	if ii, ok := p.intInfo(t); ok && !ii.bv {
-		s.assume(ii.rangeOf(v))
+		s.assumeGlobal(ii.rangeOf(v))
 	}
 	return Scalar{v, t}
 }
@@ -426,7 +568,7 @@ func (s *State) freshVal(t types.Type, hint string, deep int) Val {
 		ln := s.c.fresh(hint+".len", SInt)
 		cp := s.c.fresh(hint+".cap", SInt)
 		nl := s.c.fresh(hint+".nil", SBool)
-		s.assume(tAnd(tLe(intLit(0), ln), tLe(ln, cp), tLe(cp, bigLit(pow2(maxLenBits))), tImplies(nl, tEq(cp, intLit(0)))))
+		s.assumeGlobal(tAnd(tLe(intLit(0), ln), tLe(ln, cp), tLe(cp, bigLit(pow2(maxLenBits))), tImplies(nl, tEq(cp, intLit(0)))))
 		return SliceV{Arr: id, Off: intLit(0), Len: ln, Cap: cp, Nil: nl, Typ: t}
 	case *types.Array:
 		return SeqV{Tree: p.seqTreeOf(s.c, u.Elem(), hint+"[]", false), N: intLit(u.Len()), Typ: t}
@@ -552,6 +694,9 @@ func (s *State) treeSelect(tr SeqTree, idx Term) Val {
 		}
 		return sv
 	}
+	if tr.isSliceLeaf() {
+		return s.matSlice(tSelect(tr.Arr, idx), tSelect(tr.Len, idx), tr.Typ)
+	}
 	return s.fromLeaf(tSelect(tr.Arr, idx), tr.Typ)
 }
 
@@ -617,8 +762,58 @@ func (s *State) treeStore(tr SeqTree, idx Term, v Val) SeqTree {
 		}
 		return out
 	}
+	if tr.isSliceLeaf() {
+		sv, ok := v.(SliceV)
+		if !ok {
+			return SeqTree{Arr: tStore(tr.Arr, idx, s.c.fresh("ref", SRef)), Len: tStore(tr.Len, idx, s.c.fresh("len", SInt)), Typ: tr.Typ}
+		}
+		ref, ln := s.refOfSlice(sv)
+		return SeqTree{Arr: tStore(tr.Arr, idx, ref), Len: tStore(tr.Len, idx, ln), Typ: tr.Typ}
+	}
 	elem := strings.TrimSuffix(strings.TrimPrefix(tr.Arr.Sort, "(Array Int "), ")")
 	return SeqTree{Arr: tStore(tr.Arr, idx, s.toLeaf(v, elem)), Typ: tr.Typ}
+}
+
+// refOfSlice: the reference under which a slice value is stored in a container; loading it
+// back yields the same backing array object (aliasing is preserved on the path).
+func (s *State) refOfSlice(sv SliceV) (Term, Term) {
+	if sv.Arr == 0 {
+		return Term{"ref_nil", SRef}, intLit(0)
+	}
+	if s.matObjs == nil {
+		s.matObjs = map[string]ObjID{}
+	}
+	if s.objRef == nil {
+		s.objRef = map[ObjID]Term{}
+	}
+	if sv.Off.S == "0" {
+		if r, ok := s.objRef[sv.Arr]; ok {
+			return r, sv.Len
+		}
+		r := s.c.fresh("aref", SRef)
+		s.assume(tNot(tEq(r, Term{"ref_nil", SRef})))
+		s.objRef[sv.Arr] = r
+		s.matObjs[r.S] = sv.Arr
+		return r, sv.Len
+	}
+	// a window that does not start at the beginning of its array: store a view object
+	seq, ok := s.objs[sv.Arr].(SeqV)
+	r := s.c.fresh("aref", SRef)
+	s.assume(tNot(tEq(r, Term{"ref_nil", SRef})))
+	if ok {
+		id := s.c.newObj()
+		nt := s.c.pkg.seqTreeOf(s.c, elemTypeOfSeq(seq), "view", false)
+		zipTree(nt, seq.Tree, func(a, b Term) {
+			k := s.c.boundName("k")
+			kt := Term{k, SInt}
+			s.assume(Term{fmt.Sprintf("(forall ((%s Int)) (! (= (select %s %s) (select %s (+ %s %s))) :pattern ((select %s %s))))", k, a.S, k, b.S, sv.Off.S, k, a.S, k), SBool})
+			_ = kt
+		})
+		s.objs[id] = SeqV{Tree: nt, Typ: seq.Typ}
+		s.objRef[id] = r
+		s.matObjs[r.S] = id
+	}
+	return r, sv.Len
 }
 
 // treeUpdate stores nv at element idx, sub-path rest.
@@ -643,6 +838,9 @@ func (s *State) leaves(tr SeqTree) []Term {
 		}
 		return out
 	}
+	if tr.isSliceLeaf() {
+		return []Term{tr.Arr, tr.Len}
+	}
 	return []Term{tr.Arr}
 }
 
@@ -653,6 +851,9 @@ func mapTree(tr SeqTree, f func(Term) Term) SeqTree {
 			out.Fields = append(out.Fields, mapTree(x, f))
 		}
 		return out
+	}
+	if tr.isSliceLeaf() {
+		return SeqTree{Arr: f(tr.Arr), Len: f(tr.Len), Typ: tr.Typ}
 	}
 	return SeqTree{Arr: f(tr.Arr), Typ: tr.Typ}
 }
@@ -665,6 +866,9 @@ func zipTree(a, b SeqTree, f func(x, y Term)) {
 		return
 	}
 	f(a.Arr, b.Arr)
+	if a.isSliceLeaf() && b.isSliceLeaf() {
+		f(a.Len, b.Len)
+	}
 }
 
 // ---------------------------------------------------------------------------
